@@ -519,7 +519,20 @@ func runC18Case(bin, dir string, c c18case, sh *core.Shard) (sig, what, inconclu
 	}
 	exitAfter := victim.exitAt.Sub(t0)
 	if graceful {
-		if victim.exitErr != nil {
+		killedByOurSecondSignal := false
+		if c.Phase == "mid-shutdown" && victim.exitErr != nil {
+			// piko keeps SIGTERM handled until its shutdown has completed; the second,
+			// redundant SIGTERM can therefore only take effect in the short window
+			// between the end of the shutdown and the exit of the process (longer in
+			// the race-built binary). Everything else is still judged below.
+			if ee, ok := victim.exitErr.(*exec.ExitError); ok {
+				if ws, ok := ee.Sys().(syscall.WaitStatus); ok && ws.Signaled() && ws.Signal() == syscall.SIGTERM {
+					killedByOurSecondSignal = true
+					sh.Count("exits_by_the_redundant_second_sigterm", 1)
+				}
+			}
+		}
+		if victim.exitErr != nil && !killedByOurSecondSignal {
 			stopOnce()
 			return "shutdown-failed", fmt.Sprintf("%s: the node exited with %v after %s (log %s)", c, victim.exitErr, exitAfter.Round(time.Millisecond), victim.log), ""
 		}
